@@ -35,11 +35,16 @@ CONSTANTS
                   \* design: removeOrQueueForWriteLocked() leaves a handle
                   \* alone while one of its writes is in flight; the
                   \* completion of the write re-evaluates it.
-  ReuseSlots      \* BOOLEAN: model-checking aid, reuse the ids of
+  ReuseSlots,     \* BOOLEAN: model-checking aid, reuse the ids of
                   \* unreachable handles (FALSE when validating traces)
+  EagerFinish,    \* BOOLEAN: TRUE = the last lock section of Get() follows
+                  \* the completion of its last BlobAccess call without any
+                  \* other step in between (all a driver of the real code
+                  \* can arrange); FALSE = any interleaving
+  RecordHist      \* BOOLEAN: record the schedule in `hist`
 
-VARIABLES st, an
-vars == <<st, an>>
+VARIABLES st, an, hist
+vars == <<st, an, hist>>
 
 (***************************************************************************)
 (*                    PART B: the mutable proto store                      *)
@@ -198,18 +203,35 @@ Do_Release(S, t, dirty, rule, g) ==
             ELSE S
   IN Norm([DecUse(S1, h, g) EXCEPT !.th[t] = IdleThread])
 
+\* Completion of a BlobAccess call, followed at once by the end of Get() if
+\* it was the last one and the driver cannot separate the two.
+Fin(S, t, g) == IF EagerFinish /\ En_GetFinish(S, t) THEN Do_GetFinish(S, t, g) ELSE S
+
+\* Schedule labels (uniform records; the Go driver executes them).
+Lbl(a, t, d, c, ok) == [a |-> a, t |-> t, d |-> d, c |-> c, ok |-> ok]
+Rec(l) == hist' = IF RecordHist THEN Append(hist, l) ELSE hist
+
 StoreNext ==
   \E t \in Threads : \E g \in WriteGuards :
-    \/ \E d \in Digests : En_GetStart(st, t, d) /\ st.ng < MaxGets /\ st' = Do_GetStart(st, t, d)
-    \/ \E ok \in BOOLEAN : En_ReadDone(st, t) /\ st' = Do_ReadDone(st, t, ok)
+    \/ \E d \in Digests :
+         /\ En_GetStart(st, t, d) /\ st.ng < MaxGets
+         /\ st' = Do_GetStart(st, t, d) /\ Rec(Lbl("get", t, d, 0, TRUE))
+    \/ \E ok \in BOOLEAN :
+         /\ En_ReadDone(st, t)
+         /\ st' = Fin(Do_ReadDone(st, t, ok), t, g) /\ Rec(Lbl("rd", t, st.th[t].dg, 0, ok))
     \/ \E o \in st.th[t].ops :
-         \/ En_PutApply(st, t, o) /\ st' = Do_PutApply(st, t, o)
-         \/ En_WriteDone(st, t, o) /\ st' = Do_WriteDone(st, t, o, g)
-         \/ En_WriteFail(st, t, o) /\ st' = Do_WriteFail(st, t, o, g)
-    \/ En_GetFinish(st, t) /\ st' = Do_GetFinish(st, t, g)
+         \/ /\ En_PutApply(st, t, o)
+            /\ st' = Do_PutApply(st, t, o) /\ Rec(Lbl("wa", t, st.hs[o.h].dg, o.c, TRUE))
+         \/ /\ En_WriteDone(st, t, o)
+            /\ st' = Fin(Do_WriteDone(st, t, o, g), t, g) /\ Rec(Lbl("wd", t, st.hs[o.h].dg, o.c, TRUE))
+         \/ /\ En_WriteFail(st, t, o)
+            /\ st' = Fin(Do_WriteFail(st, t, o, g), t, g) /\ Rec(Lbl("wa", t, st.hs[o.h].dg, o.c, FALSE))
+    \/ /\ ~EagerFinish /\ En_GetFinish(st, t)
+       /\ st' = Do_GetFinish(st, t, g) /\ Rec(Lbl("fin", t, st.th[t].dg, 0, TRUE))
     \/ \E dirty \in BOOLEAN : \E r \in VersionRules :
          /\ En_Release(st, t) /\ (dirty => st.nu < MaxUpd)
          /\ st' = Do_Release(st, t, dirty, r, g)
+         /\ Rec(Lbl("rel", t, st.hs[st.th[t].h].dg, 0, dirty))
 
 -----------------------------------------------------------------------------
 (* Predicates of property C07, part 3 (persistence), on a store state S.   *)
@@ -255,8 +277,159 @@ C07_PendingCarried  == PendingCarried(st)
 \* A write never replaces newer content with older content.
 C07_MonotonicWrites == [][\A d \in Digests : st'.backing[d] >= st.backing[d]]_vars
 
-AnInit0 == [kind |-> "idle"]
+(***************************************************************************)
+(*             PART A: selector / learner state machine                    *)
+(*                                                                         *)
+(* One request at a time (the analyzer keeps no state between requests     *)
+(* other than the stats message).  `an` =                                  *)
+(*   kind   "idle" | "sel" (Selector obtained) | learner kinds | "done"    *)
+(*          feedback driven analyzer:                                      *)
+(*            "SF" smallerForegroundLearner  "LF" largestForegroundLearner *)
+(*            "LB" largestBackgroundLearner  "SB" smallerBackgroundLearner *)
+(*            "L"  largestLearner                                          *)
+(*          fallback analyzer: "FS" smallerFallbackLearner,                *)
+(*                             "FL" largestFallbackLearner                 *)
+(*   az     "fda" | "fb": which analyzer                                   *)
+(*   T      the action's timeout (ms)                                      *)
+(*   sm     size class remembered by SF / LB (the "smaller" one)           *)
+(*   choice last (index, n = length of the list it indexes, timeout,       *)
+(*          expected duration) handed to the scheduler                     *)
+(*   ret    "select" | "learner" | "nil": what the last call returned      *)
+(*   from   which call returned the current learner: "select" | "failed" | *)
+(*          "succeeded"                                                    *)
+(*   rels   dirty flags of the Release() calls on the stats handle         *)
+(*   learned TRUE once an outcome was recorded in the stats message        *)
+(*   nretry / nbg  learners returned by Failed / by Succeeded              *)
+(***************************************************************************)
+CONSTANTS MaxN, MaxT     \* model-checking bounds of part A
 
-StoreSpec == st = StoreInit0 /\ an = AnInit0 /\ [][StoreNext /\ UNCHANGED an]_vars
+PPM == 1000000
+
+FDAKinds == {"SF", "LF", "LB", "SB", "L"}
+FBKinds  == {"FS", "FL"}
+NoChoice == [idx |-> 0, n |-> 1, to |-> 0, exp |-> 0]
+
+AnInit0 == [kind |-> "idle", az |-> "fda", T |-> 0, sm |-> 0, choice |-> NoChoice,
+            ret |-> "nil", from |-> "none", rels |-> <<>>, learned |-> FALSE, nretry |-> 0, nbg |-> 0]
+
+\* A strategy as returned by StrategyCalculator.GetStrategies():
+\* [p = probability in ppm, bg = RunInBackground, fto = ForegroundExecutionTimeout]
+RECURSIVE SumP(_)
+SumP(ss) == IF ss = <<>> THEN 0 ELSE Head(ss).p + SumP(Tail(ss))
+
+\* Each probability in [0,1], the sum at most 1 (slack = rounding to ppm).
+ProbabilitiesWF(ss, slack) ==
+  /\ \A i \in 1 .. Len(ss) : ss[i].p >= 0 - slack /\ ss[i].p <= PPM + slack
+  /\ SumP(ss) <= PPM + slack * (Len(ss) + 1)
+
+\* A strategy that can be drawn and runs in the foreground carries the
+\* timeout of the choice.
+ForegroundTimeoutsWF(ss, T) ==
+  \A i \in 1 .. Len(ss) : (ss[i].p > 0 /\ ~ss[i].bg) => (ss[i].fto >= 0 /\ ss[i].fto <= T)
+
+\* A choice handed to the scheduler: an index of an existing size class and
+\* a timeout between zero and the action's own.
+ChoiceWF(c, T) == c.idx >= 0 /\ c.idx < c.n /\ c.to >= 0 /\ c.to <= T
+ExpectedWF(c) == c.exp >= 0 /\ c.exp <= c.to
+
+Position(sc, x) == CHOOSE i \in 1 .. Len(sc) : sc[i] = x /\ \A j \in 1 .. (i - 1) : sc[j] # x
+
+An_Analyze(A, az, T) == [AnInit0 EXCEPT !.kind = "sel", !.az = az, !.T = T, !.ret = "select"]
+
+Finish(A, released, dirty, learned) ==
+  [A EXCEPT !.kind = "done", !.ret = "nil",
+            !.rels = IF released /\ A.az = "fda" THEN Append(@, dirty) ELSE @,
+            !.learned = @ \/ learned]
+
+\* feedbackDrivenSelector.Select(): `consulted` = the strategy calculator was
+\* asked (no recent failure on the largest size class); bucket = position of
+\* the strategy the random number fell into (> Len(ss): none, run on largest).
+An_SelectFDA(A, sc, consulted, ss, bucket, exp) ==
+  LET n == Len(sc) IN
+  IF consulted /\ bucket >= 1 /\ bucket <= Len(ss) /\ bucket <= n
+  THEN IF ss[bucket].bg
+       THEN [A EXCEPT !.kind = "LB", !.ret = "learner", !.from = "select", !.sm = sc[bucket],
+                      !.choice = [idx |-> n - 1, n |-> n, to |-> A.T, exp |-> exp]]
+       ELSE [A EXCEPT !.kind = "SF", !.ret = "learner", !.from = "select", !.sm = sc[bucket],
+                      !.choice = [idx |-> bucket - 1, n |-> n, to |-> ss[bucket].fto, exp |-> exp]]
+  ELSE [A EXCEPT !.kind = "L", !.ret = "learner", !.from = "select", !.sm = sc[n],
+                 !.choice = [idx |-> n - 1, n |-> n, to |-> A.T, exp |-> exp]]
+
+\* fallbackSelector.Select()
+An_SelectFB(A, sc) ==
+  [A EXCEPT !.kind = IF Len(sc) > 1 THEN "FS" ELSE "FL", !.ret = "learner", !.from = "select",
+            !.choice = [idx |-> 0, n |-> Len(sc), to |-> A.T, exp |-> A.T]]
+
+\* Learner.Succeeded(duration, sizeClasses); bgto = result of
+\* GetBackgroundExecutionTimeout() when it is consulted.
+An_Succeeded(A, sc2, bgto, exp) ==
+  IF A.kind = "LB" /\ \E i \in 1 .. Len(sc2) : sc2[i] = A.sm
+  THEN [A EXCEPT !.kind = "SB", !.ret = "learner", !.from = "succeeded", !.nbg = @ + 1, !.learned = TRUE,
+                 !.choice = [idx |-> Position(sc2, A.sm) - 1, n |-> Len(sc2), to |-> bgto, exp |-> exp]]
+  ELSE Finish(A, TRUE, TRUE, A.az = "fda")
+
+\* Learner.Failed(timedOut): a failure on the size class chosen by Select is
+\* retried once on the largest with the action's own timeout.
+An_Failed(A, exp) ==
+  IF A.kind = "SF"
+  THEN [A EXCEPT !.kind = "LF", !.ret = "learner", !.from = "failed", !.nretry = @ + 1,
+                 !.choice = [idx |-> @.n - 1, n |-> @.n, to |-> A.T, exp |-> exp]]
+  ELSE IF A.kind = "FS"
+  THEN [A EXCEPT !.kind = "FL", !.ret = "learner", !.from = "failed", !.nretry = @ + 1,
+                 !.choice = [idx |-> @.n - 1, n |-> @.n, to |-> A.T, exp |-> A.T]]
+  ELSE Finish(A, TRUE, TRUE, A.az = "fda")
+
+\* Selector.Abandoned() / Learner.Abandoned(): nothing was learned, except
+\* that smallerBackgroundLearner still has the foreground outcome to save.
+An_Abandoned(A) == Finish(A, TRUE, A.kind = "SB", FALSE)
+
+-----------------------------------------------------------------------------
+(* Bounded instance of part A for TLC: strategies are arbitrary well-formed *)
+(* values (the numeric quality of the PageRank iteration is out of reach);  *)
+(* the size class list may change between Select and Succeeded as long as   *)
+(* the largest size class stays.                                            *)
+
+RECURSIVE Ascending(_)
+Ascending(sc) == Len(sc) <= 1 \/ (sc[1] < sc[2] /\ Ascending(Tail(sc)))
+SizeClassLists == UNION {{sc \in [1 .. k -> 1 .. MaxN] : Ascending(sc)} : k \in 1 .. MaxN}
+Strategies(T) == [p : {0, 300000, 1000000}, bg : BOOLEAN, fto : 0 .. T]
+\* a strategy list in which only position b can be drawn
+OnlyAt(b, s) == [i \in 1 .. b |-> IF i = b THEN s ELSE [p |-> 0, bg |-> FALSE, fto |-> 0]]
+
+AnNext ==
+  \/ /\ an.kind \in {"idle", "done"}
+     /\ \E az \in {"fda", "fb"} : \E T \in 0 .. MaxT : an' = An_Analyze(an, az, T)
+  \/ /\ an.kind = "sel"
+     /\ \/ an' = An_Abandoned(an)
+        \/ \E sc \in SizeClassLists :
+             IF an.az = "fb" THEN an' = An_SelectFB(an, sc)
+             ELSE \E consulted \in BOOLEAN : \E b \in 1 .. (Len(sc) + 1) : \E s \in Strategies(an.T) :
+                    \E e \in 0 .. an.T :
+                      /\ s.p > 0
+                      /\ LET nxt == An_SelectFDA(an, sc, consulted, OnlyAt(b, s), b, 0)
+                         IN e <= nxt.choice.to /\ an' = [nxt EXCEPT !.choice.exp = e]
+  \/ /\ an.kind \in FDAKinds \cup FBKinds
+     /\ \/ an' = An_Abandoned(an)
+        \/ \E e \in 0 .. an.T : an' = An_Failed(an, e)
+        \/ \E sc2 \in SizeClassLists : \E bgto \in 0 .. an.T : \E e \in 0 .. bgto :
+             an' = An_Succeeded(an, sc2, bgto, e)
+
+AnalyzerSpec == an = AnInit0 /\ st = StoreInit0 /\ hist = <<>> /\ [][AnNext /\ UNCHANGED <<st, hist>>]_vars
+
+(* Predicates of property C07, part 2 (well-formed choices).               *)
+C07_ChoiceWellFormed == an.ret = "learner" => ChoiceWF(an.choice, an.T)
+C07_ExpectedWithinTimeout == an.ret = "learner" => ExpectedWF(an.choice)
+\* A failure is retried at most once, a success triggers at most one
+\* background run.
+C07_RetryOnce == an.nretry <= 1 /\ an.nbg <= 1 /\ (an.nretry = 0 \/ an.nbg = 0)
+\* The stats handle is released exactly once, by the call that ends the
+\* request; recorded outcomes are released dirty.
+C07_HandleReleasedOnce ==
+  /\ an.kind # "done" => an.rels = <<>>
+  /\ an.kind = "done" => Len(an.rels) = (IF an.az = "fda" THEN 1 ELSE 0)
+C07_LearnedIsDirty == (an.kind = "done" /\ an.learned) => an.rels = <<TRUE>>
+
+StoreSpec == st = StoreInit0 /\ an = AnInit0 /\ hist = <<>> /\ [][StoreNext /\ UNCHANGED an]_vars
 StoreView == st
+StoreSym == Permutations(Threads) \cup Permutations(Digests)
 =============================================================================
